@@ -96,6 +96,48 @@ theorem C18_lazy_untouched (cfg : Config) (i : Nat) (isAnd : Bool) (vs : List Ex
   rw [visitE_quiet cfg _ n hq] at h
   exact (Except.ok.inj h).symm
 
+/-- Statement level: a `while` loop is accepted only if its test needs no statement at all (it must not be
+precomputed), an `assert` only if neither its test nor its message does. -/
+theorem C18_rejects_while (cfg : Config) (i : Nat) (t : Expr) (b e : List Stmt) (n : Nat) (pend : List Stmt)
+    (r : List Stmt × Nat × List Stmt) (h : visitS cfg (.while_ i t b e) n pend = .ok r) :
+    quiet cfg t = true ∧ okChild cfg "While" "test" t = true := by
+  simp only [visitS, bind_ok, Prod.exists, assert_ok] at h
+  obtain ⟨_, -, t1, d1, n1, h1, h⟩ := h
+  rcases hE : ensure cfg "While" "test" t1 n1 with ⟨t2, g1, n2⟩
+  simp only [hE] at h
+  split at h
+  · simp at h
+  next hnil =>
+  have hnil' : d1 ++ g1 = [] := by simpa using hnil
+  obtain ⟨hd, hg⟩ := List.append_eq_nil_iff.mp hnil'
+  subst hd; subst hg
+  have i1 := visitE_inv cfg _ _ _ _ _ h1
+  have hq : quiet cfg t = true := (quiet_iff_visit_nil cfg t n).mpr ⟨t1, n1, h1⟩
+  have ht1 : t1 = t := i1.same rfl
+  subst ht1
+  have hen := ensure_spec' i1.quiet hE
+  have : t2 = t1 := hen.2.2.2 rfl
+  subst this
+  exact ⟨hq, hen.2.2.1⟩
+
+theorem C18_rejects_assert (cfg : Config) (i : Nat) (t : Expr) (m : List Expr) (n : Nat) (pend : List Stmt)
+    (r : List Stmt × Nat × List Stmt) (h : visitS cfg (.assert_ i t m) n pend = .ok r) :
+    quiet cfg t = true ∧ quiets cfg m = true := by
+  simp only [visitS, bind_ok, Prod.exists, assert_ok] at h
+  obtain ⟨_, -, t1, d1, n1, h1, m1, d2, n2, h2, h⟩ := h
+  rcases hE1 : ensure cfg "Assert" "test" t1 n2 with ⟨t2, g1, n3⟩
+  rcases hE2 : ensureList cfg "Assert" "msg" m1 n3 with ⟨m2, g2, n4⟩
+  simp only [hE1, hE2] at h
+  split at h
+  · simp at h
+  next hnil =>
+  have hnil' : d1 ++ d2 ++ g1 ++ g2 = [] := by simpa using hnil
+  obtain ⟨h3, -⟩ := List.append_eq_nil_iff.mp hnil'
+  obtain ⟨h4, -⟩ := List.append_eq_nil_iff.mp h3
+  obtain ⟨hd1, hd2⟩ := List.append_eq_nil_iff.mp h4
+  subst hd1; subst hd2
+  exact ⟨(quiet_iff_visit_nil cfg t n).mpr ⟨t1, n1, h1⟩, (quiets_iff_visit_nil cfg m n1).mpr ⟨m1, n2, h2⟩⟩
+
 /-! ## 4. Preservation of results, effects and their order
 
 Full statement (FALSE of the pinned code, see the counterexamples below):
